@@ -166,6 +166,50 @@ theorem eff_merged (c : Cfg) (m M : OptMap) (opts : Kvs)
   simp only [getOption, alook, hM]
   cases alook n opts <;> simp
 
+/-- **Three-level lookup, level 1.**  An option PRESENT in the call's options decides, whatever its value (`None`
+    included): `get_option` returns it for every thread dict. -/
+theorem percall_present_decides (c : Cfg) (m : OptMap) (n : Name) (opts : Kvs) (o : Val) (h : alook n opts = some o) :
+    getOption c m n opts = o := by
+  simp [getOption, h]
+
+/-- Levels 2/3: the thread/block default (and through `getT` the library default) is consulted only for an ABSENT key. -/
+theorem percall_absent_consults (c : Cfg) (m : OptMap) (n : Name) (opts : Kvs) (h : alook n opts = none) :
+    getOption c m n opts = (alook n m).getD c.noneVal := by
+  simp [getOption, h]
+
+/-- The resolvers `_get_opt_eff_pars_arglike / _norm_self / _norm_get`: when the specific option is present in the call
+    (even as `None`) its thread/block default is never consulted: two thread dicts that differ ONLY in the specific
+    option (any values there) give the same answer.  An explicit `norm_self=None` shields the call from a
+    `with options(norm_self=True)` around it. -/
+theorem eff_present_shields (c : Cfg) (m m' : OptMap) (spec gen : Name) (opts : Kvs) (o : Val)
+    (h : alook spec opts = some o) (hg : alook gen m = alook gen m') :
+    effSpecific c m spec gen opts = effSpecific c m' spec gen opts := by
+  simp [effSpecific, h, hg]
+
+/-- with the general option present as well, no default is consulted at all -/
+theorem eff_all_present_independent (c : Cfg) (m m' : OptMap) (spec gen : Name) (opts : Kvs) (o g : Val)
+    (h : alook spec opts = some o) (hg : alook gen opts = some g) :
+    effSpecific c m spec gen opts = effSpecific c m' spec gen opts := by
+  simp [effSpecific, h, hg]
+
+/-- the same for `_get_opt_eff_set_norm_self / _get`: specific, `norm` and `set_norm` passed ⇒ independent of every default -/
+theorem effSetNorm_all_present_independent (c : Cfg) (m m' : OptMap) (spec : Name) (opts : Kvs) (o g s : Val)
+    (h : alook spec opts = some o) (hg : alook c.nNorm opts = some g) (hs : alook c.nSetNorm opts = some s) :
+    effSetNorm c m spec opts = effSetNorm c m' spec opts := by
+  simp [effSetNorm, effSpecific, h, hg, hs]
+
+/-- and a present specific option shields `set_norm` resolution from the specific default too -/
+theorem effSetNorm_present_shields (c : Cfg) (m m' : OptMap) (spec : Name) (opts : Kvs) (o : Val)
+    (h : alook spec opts = some o) (hg : alook c.nNorm m = alook c.nNorm m') (hs : alook c.nSetNorm m = alook c.nSetNorm m') :
+    effSetNorm c m spec opts = effSetNorm c m' spec opts := by
+  simp [effSetNorm, effSpecific, h, hg, hs]
+
+/-- when the specific option is absent from the call its default decides if it is not `None` -/
+theorem eff_absent_consults (c : Cfg) (m : OptMap) (spec gen : Name) (opts : Kvs) (o : Val)
+    (h : alook spec opts = none) (hm : alook spec m = some o) (ho : o ≠ c.noneVal) :
+    effSpecific c m spec gen opts = some o := by
+  simp [effSpecific, h, hm, ho]
+
 /-! ## threads -/
 
 /-- A whole program run by thread `t` leaves the dict of every other thread untouched. -/
@@ -404,6 +448,16 @@ example :
     (aget idle 1 w.ts).tr = [.val 10 realCfg.defaults, .val 10 realCfg.defaults] ∧
     ((aget idle 0 w.ts).tr.map fun o => match o with | .val v _ => v | _ => 99) = [99, 1, 99] ∧
     (aget idle 0 w.ts).halted = true ∧ (aget idle 1 w.ts).halted = true := by decide
+
+/-- presence, not value: under a block default `norm_self=True` (name 11, value 0) a call passing `norm_self=None,
+    norm=False` resolves to `False`, a call passing only `norm=False` resolves to `True`; under library defaults both
+    resolve to `False` -/
+example :
+    let m := update realCfg.defaults [(11, 0)]
+    effSpecific realCfg m 11 10 [(11, 2), (10, 1)] = some 1 ∧ effSpecific realCfg m 11 10 [(10, 1)] = some 0 ∧
+    effSpecific realCfg realCfg.defaults 11 10 [(11, 2), (10, 1)] = some 1 ∧
+    effSpecific realCfg realCfg.defaults 11 10 [(10, 1)] = some 1 ∧
+    realCfg.nNormSelf = 11 ∧ realCfg.nNorm = 10 ∧ realCfg.noneVal = 2 := by decide
 
 end examples
 
